@@ -75,3 +75,34 @@ impl OwnedFd {
 impl vstd::std_specs::convert::FromSpecImpl<OwnedFd> for Stdio { open spec fn obeys_from_spec() -> bool { false } open spec fn from_spec(h: OwnedFd) -> Self { arbitrary() } }
 impl From<OwnedFd> for Stdio { #[verifier::external_body] fn from(h: OwnedFd) -> (r: Self) ensures r.ident() == h.ident() { unimplemented!() } }
 #[verifier::external_body] pub struct StreamBox { _p: u8 }
+// ---- compose_std_command (commands.rs): which table entry goes to which slot of the child, and which other descriptors are injected
+pub type ShellFd = i32;
+pub struct OpenFiles { _p: u8 }
+impl OpenFiles { pub const STDIN_FD: ShellFd = 0; pub const STDOUT_FD: ShellFd = 1; pub const STDERR_FD: ShellFd = 2; }     // values checked at extraction
+#[verifier::external_body] pub struct ExecutionContext { _p: u8 }
+impl ExecutionContext {
+    pub uninterp spec fn view(&self, fd: ShellFd) -> Option<OpenFile>;      // the merged table (parameters over shell): None = closed or never opened
+    #[verifier::external_body]
+    pub fn try_fd(&self, fd: ShellFd) -> (r: Option<OpenFile>) ensures r == self.view(fd) { unimplemented!() }
+}
+pub enum Slot { Inherit, File(FileId) }
+#[verifier::external_body] pub struct StdCommand { _p: u8 }
+impl StdCommand {
+    pub uninterp spec fn slot(&self, k: int) -> Slot;                        // ghost: what std::process::Command will give the child at 0 / 1 / 2
+    #[verifier::external_body]
+    pub fn stdin(&mut self, s: Stdio) ensures final(self).slot(0) == Slot::File(s.ident()), final(self).slot(1) == old(self).slot(1), final(self).slot(2) == old(self).slot(2) { unimplemented!() }
+    #[verifier::external_body]
+    pub fn stdout(&mut self, s: Stdio) ensures final(self).slot(1) == Slot::File(s.ident()), final(self).slot(0) == old(self).slot(0), final(self).slot(2) == old(self).slot(2) { unimplemented!() }
+    #[verifier::external_body]
+    pub fn stderr(&mut self, s: Stdio) ensures final(self).slot(2) == Slot::File(s.ident()), final(self).slot(0) == old(self).slot(0), final(self).slot(1) == old(self).slot(1) { unimplemented!() }
+}
+// the entry of slot k that stands for the process's own stream k needs no redirection (the child inherits exactly that)
+pub open spec fn own_stream(f: OpenFile, k: int) -> bool { (k == 0 && f is Stdin) || (k == 1 && f is Stdout) || (k == 2 && f is Stderr) }
+// what the child must see at slot k.  An entry the table does not have (closed with `N>&-`, or never opened) must NOT reach the child
+// as an open descriptor — `closed_slot_ok` is where brush differs today (known finding).
+pub open spec fn slot_ok(v: Option<OpenFile>, k: int, s: Slot, closed_slot_ok: bool) -> bool {
+    match v {
+        Some(f) => if own_stream(f, k) { s is Inherit } else { s == Slot::File(f.ident()) },
+        None => closed_slot_ok,
+    }
+}
